@@ -9,7 +9,7 @@ the declared parameters, which is an extraction failure (= obligation broken).""
 
 BASE = "rex/base.py"
 F = "TrainableDist.apply_delay"
-VMAP = "jax.vmap(jnp.interp, in_axes=(None, None, 1))"
+VMAP = "jax.vmap(jnp.interp, in_axes=(None, None, 1), out_axes=1)"
 
 KERNELS = {
     "LinearDelay": [
